@@ -40,6 +40,19 @@ func (cx *c20Ctx) doOnceGet(okStatus int64) {
 				return
 			}
 		}
+		if n == 0 && len(st.ret) == 1 {
+			// returning without having sent the request is only legitimate with the error of a step that failed before
+			// it (limiter wait, request creation): a status-typed error stands for a status the server sent, and nil for a
+			// decoded response
+			switch v := st.resolve(st.ret[0]); {
+			case v.k == c20kErr && v.tag != "new":
+				r.Bad(c, cx.posOf(st, cx.getFn.Decl.Pos()), "`%s` returns the status-typed error &%s{...} on a path that never sends the request [%s]: no GET (and no limiter wait) happens for that call and the error does not come from a status the server sent", src(r.P.Fset, st.retAt), v.tag, c20PathText(st))
+				return
+			case v.k == c20kNil:
+				r.Bad(c, cx.posOf(st, cx.getFn.Decl.Pos()), "`%s` returns nil (success) on a path that never sends the request [%s]: the caller gets an empty document as if the server had answered", src(r.P.Fset, st.retAt), c20PathText(st))
+				return
+			}
+		}
 		if kind, _ := cx.classifyGet(st); kind == "decode" {
 			nDec++
 			if n != 1 {
